@@ -82,12 +82,23 @@ def target_codes():
     from hszinc import grid_filter as gf
     mon = sys.monitoring
     fname = gf.__file__
-    seen = {'compile': set(), 'eval': set()}
+    seen = {'compile': set(), 'eval': set(), 'under-pyparsing': set()}
     phase = ['compile']
 
     def on_start(code, offset):
         if code.co_filename == fname:
             seen[phase[0]].add(code)
+            # parse actions run inside pyparsing, which (with packrat enabled) holds a global lock while it calls them:
+            # a thread parked there by the scheduler would block every other thread that parses - the program cannot
+            # yield at those points, so they are not decision points
+            f = sys._getframe(1)
+            depth = 0
+            while f is not None and depth < 60:
+                if 'pyparsing' in f.f_code.co_filename:
+                    seen['under-pyparsing'].add(code)
+                    break
+                f = f.f_back
+                depth += 1
     try:
         mon.use_tool_id(2, 'vf-discover')
     except ValueError:
@@ -108,7 +119,7 @@ def target_codes():
     finally:
         mon.set_events(2, 0)
         mon.free_tool_id(2)
-    codes = sorted(seen['compile'] - seen['eval'], key=lambda c: (c.co_firstlineno, c.co_name))
+    codes = sorted(seen['compile'] - seen['eval'] - seen['under-pyparsing'], key=lambda c: (c.co_firstlineno, c.co_name))
     # generated functions and pyparsing parse-action lambdas that only shuffle tokens carry no shared state, but are
     # harmless to include; module-level code (<module>) cannot run again
     codes = [c for c in codes if c.co_name != '<module>' and not c.co_name.startswith('_gen_hsfilter_')]
@@ -292,7 +303,7 @@ def run_shard(spec, ctx):
                 except Exception as e:   # noqa
                     ctx.violation({'part': 'schedule', 'kind': 'filter', 'symptom': 'raises-later:' + type(e).__name__, 'features': feats},
                                   'after schedule %r the cached filter %r raises %s' % (ov, fam[idx][1], type(e).__name__), case)
-        stats = sched.explore(codes, make_ops, check, spec['bound'], max_schedules=1500 if ctx.tier == 'quick' else 40000)
+        stats = sched.explore(codes, make_ops, check, spec['bound'], max_schedules=800 if ctx.tier == 'quick' else 40000)
         ctx.count('distinct interleavings (trace fingerprints)', len(stats['fingerprints']))
         ctx.count('max decision points in one execution', 0)
         ctx.note('threads=%d bound=%d prefill=%d: %d schedules (by number of preemptions %r, %d left unexplored by the cap), %d distinct '
